@@ -289,6 +289,59 @@ theorem progress_after_supply {σ β} (P : Prog σ β) (file : List Nat) (m : Mo
   rw [← hctl]
   exact poll_covered P file m hwf d1 hinv1 hfin1 hcov ms' hms'
 
+/-- **One requested range per call is enough** (the liveness step for an I/O layer that answers
+only part of a request): after `NeedsData ms`, genuine data that covers at least one range of
+`ms` makes the next call either advance (emit / smaller rank) or ask again for exactly the
+ranges of `ms` that are still uncovered — a strictly shorter list.  So every partial answer
+strictly decreases the pair (rank, number of missing ranges). -/
+theorem progress_partial_supply {σ β} (P : Prog σ β) (file : List Nat) (m : Mode) (hwf : WF P file)
+    (d : Dec σ) (hinv : Inv file d.buffers) (hfin : d.finished = false) (ms : List Range)
+    (h : (poll P m d).2 = .needsData ms)
+    (es : List (Range × List Nat)) (hg : Genuine file es)
+    (r0 : Range) (hr0 : r0 ∈ ms) (hc0 : ∃ e ∈ es, e.1.covers r0 = true) :
+    let d1 := ((poll P m d).1.push es).1
+    ∀ ms', (poll P m d1).2 = .needsData ms' →
+      P.rank (poll P m d1).1.ctl < P.rank (poll P m d).1.ctl ∨
+      (ms' = ms.filter (fun r => !es.any (fun e => e.1.covers r)) ∧ ms'.length < ms.length) := by
+  intro d1 ms' hms'
+  have out := poll_out P file m hwf d hinv hfin
+  obtain ⟨_, hf1, _, req, hreq, hms, _⟩ := out.needs ms h
+  have hp := (push_genuine file (poll P m d).1 es hg hf1).1
+  have hctl : d1.ctl = (poll P m d).1.ctl := by show ((poll P m d).1.push es).1.ctl = _; rw [hp]
+  have hbuf : d1.buffers = { (poll P m d).1.buffers with entries := (poll P m d).1.buffers.entries ++ es } := by
+    show ((poll P m d).1.push es).1.buffers = _; rw [hp]
+  have hinv1 : Inv file d1.buffers := by rw [hbuf]; exact inv_append file _ es out.inv hg
+  have hfin1 : d1.finished = false := by show ((poll P m d).1.push es).1.finished = false; rw [hp]; exact hf1
+  by_cases hall : ∀ r ∈ P.req d1.ctl, d1.buffers.hasRange r = true
+  · left; rw [← hctl]; exact poll_covered P file m hwf d1 hinv1 hfin1 hall ms' hms'
+  · right
+    have hm := micro_out P file m d1 hinv1 hwf
+    unfold poll at hms'
+    simp only [hfin1, Bool.false_eq_true, if_false] at hms'
+    rw [pollLoop_eq] at hms'
+    generalize hmd : micro P m d1 = md at hm hms'
+    cases hm with
+    | step d'' _ _ _ hcov => exact absurd hcov hall
+    | needs req' hreq' hne =>
+      simp only [Event.needsData.injEq] at hms'
+      have hrq : req' = req := by
+        rw [hctl, hreq] at hreq'; cases hreq'; rfl
+      subst hrq
+      have key : d1.buffers.neededRanges req' = ms.filter (fun r => !es.any (fun e => e.1.covers r)) := by
+        rw [hms, hbuf]
+        simp only [PushBuffers.neededRanges, List.filter_filter]
+        apply List.filter_congr
+        intro r _
+        rw [hasRange_append]
+        cases (poll P m d).1.buffers.hasRange r <;> cases es.any (fun e => e.1.covers r) <;> rfl
+      rw [← hms', key]
+      refine ⟨rfl, ?_⟩
+      apply List.length_filter_lt_length_iff_exists.2
+      obtain ⟨e, he, hc⟩ := hc0
+      refine ⟨r0, hr0, ?_⟩
+      simp only [Bool.not_eq_true', Bool.not_eq_false, List.any_eq_true]
+      exact ⟨e, he, hc⟩
+
 /-- the adversary answers every request with ranges inside the file among which each requested
 range is contained in one supplied range -/
 def Responsive (file : List Nat) (adv : Nat → List Range → List Range) : Prop :=
@@ -654,5 +707,21 @@ theorem budgetedRows_sum (ns : List Nat) : ∀ b : RowBudget, (budgetedRows b ns
 
 /-- non-vacuity: offset 25, limit 20 over row groups of 10, 30 and 40 selected rows -/
 example : budgetedRows ⟨some 25, some 20⟩ [10, 30, 40] = [0, 15, 5] := by decide
+
+/-! ## Source shapes the model mirrors -/
+
+/-- **T-tie of expression shapes.**  The guard and slicing expressions of `PushBuffers`
+(`has_range`, `get_bytes`, `clear_ranges`, `push_range`), `DataRequest::needed_ranges`, the
+release of consumed requests, the `WaitingOn…` arms, `push_ranges`' state handling and the two
+places where the async stream pushes the fetched bytes are matched against the current source on
+every run; an edit to any of them makes this obligation fail (and the check then searches for a
+failing input). -/
+theorem source_shapes_unchanged :
+    (Generated.C15.HAS_RANGE_SHAPE_lost || Generated.C15.GET_BYTES_SHAPE_lost ||
+     Generated.C15.READ_SHAPE_lost || Generated.C15.CLEAR_RANGES_SHAPE_lost ||
+     Generated.C15.PUSH_RANGE_SHAPE_lost || Generated.C15.NEEDED_RANGES_SHAPE_lost ||
+     Generated.C15.GET_CHUNKS_CLEAR_SHAPE_lost || Generated.C15.WAITING_ARMS_SHAPE_lost ||
+     Generated.C15.PUSH_DATA_STATE_SHAPE_lost || Generated.C15.ASYNC_POLL_PUSH_SHAPE_lost ||
+     Generated.C15.ASYNC_NEXT_RG_PUSH_SHAPE_lost || Generated.C15.FILTER_PUT_BACK_SHAPE_lost) = false := rfl
 
 end ArrowModel.C15
